@@ -1,0 +1,22 @@
+//go:build verif
+
+// Copyright 2026 The Scriggo Authors. All rights reserved.
+// Use of this source code is governed by a BSD-style
+// license that can be found in the LICENSE file.
+
+// Package c08 is a verification bridge (build tag "verif") that exposes the
+// unexported showInJS, showInJSON and parseTagValue functions of
+// internal/runtime to the external correspondence harness of property C08.
+// It adds no behaviour.
+package c08
+
+import "github.com/open2b/scriggo/internal/runtime"
+
+// Show calls showInJS (js true) or showInJSON (js false) on value and returns
+// what it wrote and its error.
+func Show(js bool, value any) (string, error) { return runtime.VerifC08Show(js, value) }
+
+// ParseTagValue calls runtime.parseTagValue.
+func ParseTagValue(tag string) (name string, omitempty bool) {
+	return runtime.VerifC08ParseTagValue(tag)
+}
